@@ -729,6 +729,107 @@ theorem NoKnow.simple {p : PState} (h : NoKnow p) : ∀ n : Node, isSimple n = t
   | .loop _, h, _ => by cases h
   | .mainLoop _, h, _ => by cases h
 
+/-! function parameters: the unknown marker of a name the body does not write survives, so its reads are not folded -/
+
+theorem enterFunction_lookup (params : List String) : ∀ (p : PState) (x : String),
+    (x ∈ params ∨ p.env.lookup x = some .unknown) → (enterFunction p params).env.lookup x = some .unknown := by
+  induction params with
+  | nil =>
+    intro p x h
+    rcases h with h | h
+    · cases h
+    · exact h
+  | cons y rest ih =>
+    intro p x h
+    show (enterFunction (p.bindStr y .unknown) rest).env.lookup x = _
+    by_cases hr : x ∈ rest
+    · exact ih _ x (Or.inl hr)
+    · refine ih _ x (Or.inr ?_)
+      rw [bindStr_lookup]
+      split
+      · rfl
+      · next hne =>
+        rcases h with h | h
+        · rcases List.mem_cons.1 h with h | h
+          · exact absurd h hne
+          · exact absurd h hr
+        · exact h
+
+theorem known_of_unknown {p : PState} {x : String} (h : p.env.lookup x = some .unknown) : p.known x = none := by
+  unfold PState.known; rw [h]
+
+theorem foldNode_env (x : String) : ∀ (n : Node) (p : PState), x ∉ writesNode n →
+    (foldNode p n).1.env.lookup x = p.env.lookup x
+  | .bind y (.str s), p, h => by
+    rw [writesNode] at h; rw [foldNode, bindStr_lookup, if_neg (by simpa using h)]
+  | .bind y (.list xs), p, h => by
+    rw [writesNode] at h; rw [foldNode]
+    show (p.bindStr y (.ref p.heap.length)).env.lookup x = _
+    rw [bindStr_lookup, if_neg (by simpa using h)]
+  | .bindDyn y v, p, h => by
+    rw [writesNode] at h; rw [foldNode, bindStr_lookup, if_neg (by simpa using h)]
+  | .append y n, p, h => by
+    rw [writesNode] at h; rw [foldNode]
+    split
+    · rfl
+    · rw [bindStr_lookup, if_neg (by simpa using h)]
+  | .remove y n, p, h => by
+    rw [writesNode] at h; rw [foldNode]
+    split
+    · rfl
+    · rw [bindStr_lookup, if_neg (by simpa using h)]
+  | .obs y, p, _ => by rw [foldNode]; split <;> rfl
+  | .obsConst v, p, _ => by rw [foldNode]
+  | .branches bs, p, _ => by rw [foldNode]
+  | .loop body, p, _ => by rw [foldNode]
+  | .mainLoop body, p, _ => by rw [foldNode]
+
+mutual
+theorem countNode_unknown (x : String) : ∀ (n : Node) (p : PState), p.env.lookup x = some .unknown → x ∉ writesNode n →
+    countObsNode x (foldNode p n).2 = countObsNode x n
+  | .bind y (.str s), p, _, _ => by rw [foldNode]
+  | .bind y (.list xs), p, _, _ => by rw [foldNode]
+  | .bindDyn y v, p, _, _ => by rw [foldNode]
+  | .append y n, p, _, _ => by rw [foldNode]; split <;> rfl
+  | .remove y n, p, _, _ => by rw [foldNode]; split <;> rfl
+  | .obs y, p, hp, _ => by
+    rw [foldNode]
+    split
+    · next v hv =>
+      have hne : ¬ y = x := fun h => by subst h; rw [known_of_unknown hp] at hv; cases hv
+      simp only [countObsNode, if_neg hne]
+    · rfl
+  | .obsConst v, p, _, _ => by rw [foldNode]
+  | .branches bs, p, hp, h => by
+    rw [writesNode] at h
+    rw [foldNode]; simp only [countObsNode]
+    exact countBranches_unknown x bs p hp h
+  | .loop body, p, hp, h => by
+    rw [writesNode] at h
+    rw [foldNode]; simp only [countObsNode]
+    exact countList_unknown x body p hp h
+  | .mainLoop body, p, hp, h => by
+    rw [writesNode] at h
+    rw [foldNode]; simp only [countObsNode]
+    exact countList_unknown x body p hp h
+theorem countList_unknown (x : String) : ∀ (l : List Node) (p : PState), p.env.lookup x = some .unknown → x ∉ writesList l →
+    countObsList x (foldList p l).2 = countObsList x l
+  | [], p, _, _ => by rw [foldList]
+  | n :: rest, p, hp, h => by
+    rw [writesList, List.mem_append, not_or] at h
+    rw [foldList]; simp only [countObsList]
+    rw [countNode_unknown x n p hp h.1,
+      countList_unknown x rest _ ((foldNode_env x n p h.1).trans hp) h.2]
+theorem countBranches_unknown (x : String) : ∀ (bs : List (List Node)) (p : PState), p.env.lookup x = some .unknown →
+    x ∉ writesBranches bs → countObsBranches x (foldBranches p bs).2 = countObsBranches x bs
+  | [], p, _, _ => by rw [foldBranches]
+  | b :: rest, p, hp, h => by
+    rw [writesBranches, List.mem_append, not_or] at h
+    rw [foldBranches]; simp only [countObsBranches]
+    rw [countList_unknown x b p hp h.1,
+      countBranches_unknown x rest { p with heap := (foldList p b).1.heap } hp h.2]
+end
+
 end CEPart
 
 end Reduino.Lemmas.C03
